@@ -1975,6 +1975,54 @@ class PyCdlib:
 
         return tmp_path
 
+    def _check_new_joliet_path(self, joliet_path):
+        # type: (str) -> None
+        """
+        An internal method to refuse a Joliet path that cannot be added (no
+        Joliet on this ISO, name too long, missing parent, existing name)
+        before anything has been changed for the other namespaces.
+
+        Parameters:
+         joliet_path - The Joliet path that is going to be added.
+        Returns:
+         Nothing.
+        """
+        joliet_path_bytes = self._normalize_joliet_path(joliet_path)
+        (name_unused, parent) = self._joliet_name_and_parent_from_path(joliet_path_bytes)
+        if not parent.is_dir():
+            raise pycdlibexception.PyCdlibInvalidInput('Trying to add a child to a record that is not a directory')
+        try:
+            self._find_joliet_record(joliet_path_bytes)
+        except pycdlibexception.PyCdlibInvalidInput:
+            return
+        raise pycdlibexception.PyCdlibInvalidInput('Failed adding duplicate name to parent')
+
+    def _check_new_udf_path(self, udf_path):
+        # type: (str) -> None
+        """
+        An internal method to refuse a UDF path that cannot be added (no UDF
+        on this ISO, missing parent, existing name) before anything has been
+        changed for the other namespaces.
+
+        Parameters:
+         udf_path - The UDF path that is going to be added.
+        Returns:
+         Nothing.
+        """
+        if self.udf_root is None:
+            raise pycdlibexception.PyCdlibInvalidInput('Can only specify a UDF path for a UDF ISO')
+        udf_path_bytes = utils.normpath(udf_path)
+        (name, parent) = self._udf_name_and_parent_from_path(udf_path_bytes)
+        if parent is None or not parent.is_dir():
+            raise pycdlibexception.PyCdlibInvalidInput('Can only add a UDF File Identifier to a directory')
+        # A descriptor made just to have the name checked.
+        udfmod.UDFFileIdentifierDescriptor().new(False, False, name, parent)
+        try:
+            self._find_udf_record(udf_path_bytes)
+        except pycdlibexception.PyCdlibInvalidInput:
+            return
+        raise pycdlibexception.PyCdlibInvalidInput('Failed adding duplicate name to UDF parent')
+
     def _link_eltorito(self, extent_to_inode):
         # type: (Dict[int, inode.Inode]) -> None
         """
@@ -3279,6 +3327,13 @@ class PyCdlib:
 
         if iso_path is None and joliet_path is None and udf_path is None:
             raise pycdlibexception.PyCdlibInvalidInput("At least one of 'iso_path', 'joliet_path', or 'udf_path' must be provided")
+
+        # The namespaces are dealt with one after the other below; what the
+        # later ones would refuse is refused now, while nothing has changed.
+        if joliet_path:
+            self._check_new_joliet_path(joliet_path)
+        if udf_path:
+            self._check_new_udf_path(udf_path)
 
         fmode = 0
         if file_mode is not None:
